@@ -128,10 +128,39 @@ type verifQuoteLog struct {
 	written  int            // bytes written so far
 	calls    int
 	flags    uint64
-	bad      bool
+	html     bool
 }
 
 var verifQ *verifQuoteLog
+
+// escaped size of one input byte (native/parsing.h: _SingleQuoteTab, _DoubleQuoteTab, _HtmlQuoteTab)
+func (q *verifQuoteLog) size(b byte, flags uint64) int {
+	if q.html {
+		if b == '<' || b == '>' || b == '&' {
+			return 6
+		}
+		return 1
+	}
+	double := flags&1 != 0
+	switch {
+	case b == '\t' || b == '\n' || b == '\r':
+		if double {
+			return 3
+		}
+		return 2
+	case b < 0x20:
+		if double {
+			return 7
+		}
+		return 6
+	case b == '"' || b == '\\':
+		if double {
+			return 4
+		}
+		return 2
+	}
+	return 1
+}
 
 // contract stub of native.Quote / native.HTMLEscape (native/native.h): consumes c <= nb input
 // bytes, writes w <= *dn output bytes at dp, sets *dn = w; returns nb when everything was
@@ -145,10 +174,15 @@ func verifQuoteStub(s unsafe.Pointer, nb int, dp unsafe.Pointer, dn *int, flags 
 	v.Assert(*dn >= 0, "quote loop: negative output space")
 	q.flags = flags
 	space := *dn
-	c := v.Int("consumed", 0, nb)
-	w := v.Int("written", 0, space)
-	if space >= 6 && nb > 0 {
-		v.Assume(c >= 1)
+	// native/quote.c: greedy -- consume input bytes while their escaped form still fits
+	c, w := 0, 0
+	for c < nb {
+		need := q.size(*(*byte)(unsafe.Pointer(uintptr(s) + uintptr(c))), flags)
+		if w+need > space {
+			break
+		}
+		w += need
+		c++
 	}
 	v.WriteJunk(dp, w) // the native writes w bytes at dp: checked against the buffer's capacity
 	*dn = w
@@ -167,6 +201,10 @@ func VerifC20QuoteLoop() {
 	v.Stub("github.com/bytedance/sonic/internal/native.Quote", verifQuoteStub)
 	n := v.Int("n", 0, 3)
 	val := v.StringN("val", n, 3)
+	for i := 0; i < n; i++ {
+		b := val[i] // one representative pair per escape-size class
+		v.Assume(b == 1 || b == 2 || b == '\n' || b == '\t' || b == '"' || b == '\\' || b == 'a' || b == 'b')
+	}
 	double := v.Bool("double")
 	buf, l := verifPrefixBuf()
 	verifQ = &verifQuoteLog{total: n}
@@ -178,6 +216,16 @@ func VerifC20QuoteLoop() {
 	if double {
 		open, clos = 3, 3
 	}
+	for i := 0; i < l && i < len(out); i++ {
+		v.Assert(out[i] == 'p', "Quote changed the buffer prefix")
+	}
+	v.Assert(len(out) >= l+open+clos && out[l] == '"' && out[len(out)-1] == '"', "quotes missing")
+	if !v.Symbolic() {
+		// native replay: the observable definition -- the literal decodes back to the input
+		verifQuoteOracle(out[l:], val, double)
+		return
+	}
+	// contract-level obligations (the stub logged how the wrapper drove the native routine)
 	if n == 0 {
 		v.Assert(q.calls == 0, "quote loop: native called for the empty string")
 		v.Assert(len(out) == l+open+clos, "empty string not quoted as two quotes")
@@ -186,10 +234,6 @@ func VerifC20QuoteLoop() {
 	}
 	v.Assert(q.consumed == n, "quote loop: not every input byte was consumed")
 	v.Assert(len(out) == l+open+q.written+clos, "quote loop: output length is not prefix + quotes + native output")
-	for i := 0; i < l; i++ {
-		v.Assert(out[i] == 'p', "Quote changed the buffer prefix")
-	}
-	v.Assert(out[l] == '"' && out[len(out)-1] == '"', "quotes missing")
 	if double {
 		v.Assert(q.flags == 1, "double quoting does not pass F_DOUBLE_UNQUOTE")
 	} else {
@@ -212,6 +256,10 @@ func VerifC20HtmlEscapeLoop() {
 	v.Stub("github.com/bytedance/sonic/internal/native.HTMLEscape", verifHTMLStub)
 	n := v.Int("n", 1, 3)
 	src := v.BytesN("src", n, 3)
+	for i := 0; i < n; i++ {
+		b := src[i]
+		v.Assume(b == '<' || b == '&' || b == 'a' || b == 'b')
+	}
 	// short prefixes and prefixes longer than len(src)*3/2+64; spare capacity on both sides of len(src)+64
 	lens := [...]int{0, 2, 66, 69, 80}
 	spares := [...]int{0, 1, 5, 66, 70}
@@ -222,11 +270,15 @@ func VerifC20HtmlEscapeLoop() {
 		dst[0] = 'p'
 		dst[l-1] = 'q'
 	}
-	verifQ = &verifQuoteLog{total: n, base: unsafe.Pointer(&src[0])}
+	verifQ = &verifQuoteLog{total: n, base: unsafe.Pointer(&src[0]), html: true}
 	out := HtmlEscape(dst, src)
 	q := verifQ
-	v.Assert(q.consumed == n, "html-escape loop: not every input byte was consumed")
-	v.Assert(len(out) == l+q.written, "html-escape loop: output length is not prefix + native output")
+	if v.Symbolic() {
+		v.Assert(q.consumed == n, "html-escape loop: not every input byte was consumed")
+		v.Assert(len(out) == l+q.written, "html-escape loop: output length is not prefix + native output")
+	} else {
+		verifHTMLOracle(out, dst[:l], src)
+	}
 	if l > 0 && len(out) >= l {
 		v.Assert(out[0] == 'p' && out[l-1] == 'q', "HtmlEscape changed the destination prefix")
 	}
